@@ -154,6 +154,40 @@ def run(eng, ctx):
         if isinstance(st, ast.FunctionDef) and st.name in ("__delattr__", "__getattr__", "__getattribute__", "__setstate__"):
             nby += 1
             ctx.bad("C14.D3", eng.message_cls, st.name, expected="no attribute-protocol overrides besides __setattr__", found=f"{st.name} defined", file=eng.repo.relpath(mod), line=st.lineno)
+    # a sealed message keeps no container that its own public side writes into: an item store or a mutating method on `self.<field>` in a method
+    # that can run after construction (everything reachable from the public / special methods other than the constructor) changes the message without
+    # passing __setattr__ - and makes `msg.<field> |= {...}` change it in place before the refused rebinding raises
+    from ..symeval import MUTATORS as _MUT
+
+    meths = {f_.node.name: f_ for f_ in eng.repo.all_funcs() if f_.cls == cls and f_.module == mod}
+    callees = {n_: {c.func.attr for c in ast.walk(f_.node) if isinstance(c, ast.Call) and isinstance(c.func, ast.Attribute) and isinstance(c.func.value, ast.Name) and f_.params and c.func.value.id == f_.params[0]}
+                    | {a.attr for a in ast.walk(f_.node) if isinstance(a, ast.Attribute) and isinstance(a.value, ast.Name) and f_.params and a.value.id == f_.params[0] and a.attr in meths and meths[a.attr].is_property}
+               for n_, f_ in meths.items()}
+    post = {n_ for n_ in meths if n_ not in ("__init__", "__setattr__") and (not n_.startswith("_") or (n_.startswith("__") and n_.endswith("__")))}
+    grew = True
+    while grew:
+        grew = False
+        for n_ in list(post):
+            for c_ in callees.get(n_, ()):
+                if c_ in meths and c_ not in post and c_ != "__init__":
+                    post.add(c_)
+                    grew = True
+    for n_ in sorted(post):
+        f_ = meths[n_]
+        if not f_.params:
+            continue
+        me = f_.params[0]
+        for node in walk_no_nested(f_.node):
+            recv = None
+            if isinstance(node, ast.Subscript) and isinstance(node.ctx, (ast.Store, ast.Del)):
+                recv, what = node.value, "item store into"
+            elif isinstance(node, ast.Call) and isinstance(node.func, ast.Attribute) and node.func.attr in _MUT:
+                recv, what = node.func.value, f".{node.func.attr}() on"
+            while isinstance(recv, ast.Subscript):
+                recv = recv.value
+            if isinstance(recv, ast.Attribute) and isinstance(recv.value, ast.Name) and recv.value.id == me:
+                nby += 1
+                ctx.bad("C14.D3", f_.qualname, norm(eng.repo.enclosing_stmt(node))[:100], expected="no write into an object held by the message after it is sealed", found=f"{what} self.{recv.attr} in a method that runs after construction", **eng.loc(f_, node))
     if not nby:
         ctx.ok("C14.D3", "package", "bypass constructs", found=f"0 in {len(eng.repo.funcs)} functions", file=eng.repo.relpath(mod), line=0)
     ctx.notes["bypass_fixture"] = "fixtures/c14_bypass.py must match (checked by --self-check)"
